@@ -20,6 +20,9 @@ R-C07-10 back()/front()/pop_back()/pop_front() on a standard sequence only
 R-C07-11 (= R-C06-6) check_track_is_supported validates head, cylinder and data
          size of every decoded sector (a sector of another size would overrun
          the fixed-size sector buffer it is later copied into)
+R-C07-12 (= R-C10-7) zlib's total_in/total_out are not used as file positions in
+         a function that resets the stream (the decompression loop would go
+         back over consumed data for ever)
 """
 from ..runner import RuleResult
 from ..facts import AnalysisBroken
@@ -1223,12 +1226,13 @@ def rule_diagnosed_failures(prog, fixture=False):
 
 
 def run(ctx):
-    from . import c06
+    from . import c06, c10
     prog = ctx.prog("dfs", "N")
     return [rule_throw_types(prog), rule_containment(prog), rule_exit_status(prog), rule_short_reads(prog),
             rule_reading_loops(prog), rule_alloc_taint(prog), rule_optional_access(prog), rule_divisors(prog),
             rule_diagnosed_failures(prog), rule_nonempty_access(prog),
-            c06.rule_track_checks_unconditional(prog, rule_id="R-C07-11")]
+            c06.rule_track_checks_unconditional(prog, rule_id="R-C07-11"),
+            c10.rule_counters_after_reset(prog, rule_id="R-C07-12")]
 
 
 SELFTESTS = [
